@@ -121,24 +121,43 @@ theorem sel_sep {tol : K} (ht : 0 < tol) (basis : List Nat) (x y : Nat × K) (h 
     (sel tol basis [] x y).2 ≤ x.2 ∧ (sel tol basis [] x y).2 ≤ y.2 ∧
     (x.2 = (sel tol basis [] x y).2 → basis.getD (sel tol basis [] x y).1 0 ≤ basis.getD x.1 0) ∧
     (y.2 = (sel tol basis [] x y).2 → basis.getD (sel tol basis [] x y).1 0 ≤ basis.getD y.1 0) := by
-  unfold sel
-  by_cases he : y.2 = x.2
-  · rw [if_pos ((feq_iff_eq ht h).2 he)]
-    simp only [List.contains_nil, Bool.false_and, Bool.or_false, decide_eq_true_eq]
-    by_cases hb : basis.getD y.1 0 < basis.getD x.1 0
-    · rw [if_pos hb]
-      exact ⟨Or.inr rfl, he.le, le_refl _, fun _ => hb.le, fun _ => le_refl _⟩
-    · rw [if_neg hb]
-      exact ⟨Or.inl rfl, le_refl _, he.symm.le, fun _ => le_refl _, fun _ => not_lt.1 hb⟩
-  · have hne : ¬ Tol.feq tol y.2 x.2 = true := fun hc => he ((feq_iff_eq ht h).1 hc)
-    rw [if_neg hne]
+  unfold sel selRatio tieWins
+  simp only [List.contains_nil, Bool.false_and, Bool.or_false, decide_eq_true_eq]
+  cases Gen.ratioTestExact with
+  | true =>
+    simp only [if_true, ExactK.lt_eq, ExactK.eq_eq, decide_eq_true_eq]
     by_cases hl : y.2 < x.2
-    · rw [if_pos ((flt_iff_lt ht h).2 hl)]
-      exact ⟨Or.inr rfl, hl.le, le_refl _, fun e => absurd e.symm he, fun _ => le_refl _⟩
-    · have : ¬ Tol.flt tol y.2 x.2 = true := fun hc => hl ((flt_iff_lt ht h).1 hc)
-      rw [if_neg this]
-      have hxy : x.2 < y.2 := lt_of_le_of_ne (not_lt.1 hl) (fun e => he e.symm)
-      exact ⟨Or.inl rfl, le_refl _, hxy.le, fun _ => le_refl _, fun e => absurd e (ne_of_gt hxy)⟩
+    · rw [if_pos hl]
+      exact ⟨Or.inr rfl, hl.le, le_refl _, fun e => absurd e.symm (ne_of_lt hl), fun _ => le_refl _⟩
+    · rw [if_neg hl]
+      by_cases he : y.2 = x.2
+      · rw [if_pos he]
+        by_cases hb : basis.getD y.1 0 < basis.getD x.1 0
+        · rw [if_pos hb]
+          exact ⟨Or.inr rfl, he.le, le_refl _, fun _ => hb.le, fun _ => le_refl _⟩
+        · rw [if_neg hb]
+          exact ⟨Or.inl rfl, le_refl _, he.symm.le, fun _ => le_refl _, fun _ => not_lt.1 hb⟩
+      · rw [if_neg he]
+        have hxy : x.2 < y.2 := lt_of_le_of_ne (not_lt.1 hl) (fun e => he e.symm)
+        exact ⟨Or.inl rfl, le_refl _, hxy.le, fun _ => le_refl _, fun e => absurd e (ne_of_gt hxy)⟩
+  | false =>
+    simp only [Bool.false_eq_true, if_false]
+    by_cases he : y.2 = x.2
+    · rw [if_pos ((feq_iff_eq ht h).2 he)]
+      by_cases hb : basis.getD y.1 0 < basis.getD x.1 0
+      · rw [if_pos hb]
+        exact ⟨Or.inr rfl, he.le, le_refl _, fun _ => hb.le, fun _ => le_refl _⟩
+      · rw [if_neg hb]
+        exact ⟨Or.inl rfl, le_refl _, he.symm.le, fun _ => le_refl _, fun _ => not_lt.1 hb⟩
+    · have hne : ¬ Tol.feq tol y.2 x.2 = true := fun hc => he ((feq_iff_eq ht h).1 hc)
+      rw [if_neg hne]
+      by_cases hl : y.2 < x.2
+      · rw [if_pos ((flt_iff_lt ht h).2 hl)]
+        exact ⟨Or.inr rfl, hl.le, le_refl _, fun e => absurd e.symm he, fun _ => le_refl _⟩
+      · have : ¬ Tol.flt tol y.2 x.2 = true := fun hc => hl ((flt_iff_lt ht h).1 hc)
+        rw [if_neg this]
+        have hxy : x.2 < y.2 := lt_of_le_of_ne (not_lt.1 hl) (fun e => he e.symm)
+        exact ⟨Or.inl rfl, le_refl _, hxy.le, fun _ => le_refl _, fun e => absurd e (ne_of_gt hxy)⟩
 
 /-- the fold of `find_t` returns the lexicographic minimum by (ratio, basic index). -/
 theorem foldl_sel_lex {tol : K} (ht : 0 < tol) (basis : List Nat) :
